@@ -383,6 +383,19 @@ func TestC20(t *testing.T) {
 		if rapid.IntRange(0, 3).Draw(rt, "dimwhite") == 0 {
 			p.WY = float32(math.Pow(10, rapid.Float64Range(-6, 3).Draw(rt, "whiteexp")))
 		}
+		// luminances of unrelated, extreme magnitudes (each is only a scale factor of one column or of the white)
+		if rapid.IntRange(0, 5).Draw(rt, "extremelum") == 0 {
+			for i := range p.PY {
+				if rapid.Bool().Draw(rt, "extremepy") {
+					p.PY[i] = float32(math.Pow(10, rapid.Float64Range(-20, 8).Draw(rt, "pyexp")))
+				} else if p.PY[i] == 0 {
+					p.PY[i] = 1
+				}
+			}
+			if rapid.Bool().Draw(rt, "extremewy") {
+				p.WY = float32(math.Pow(10, rapid.Float64Range(-20, 8).Draw(rt, "wyexp")))
+			}
+		}
 		ev.Eval(1)
 		ev.NT(ev.Hash("tri", p))
 		k, w, cond := checkPrim(p)
